@@ -1,0 +1,151 @@
+//go:build verif
+
+package distribution
+
+// Contracts for the deductive checker in /verif (comment-only; compiled only with -tags verif).
+// Lib specs: /verif/specs/c04/*.spec
+
+/*@
+// ------------------------------------------------------------------ C16: ABI argument decoding (S1)
+func parseClaimRewardsArgs
+    let ok = len(args) == 2 && isdyn(args[0], Address) && dyn(args[0], Address) != zero_EvmAddr && isdyn(args[1], uint32)
+    ensures err_iff: (result.2 == nil) == ok
+    ensures decoded: result.2 == nil ==> result.0 == dyn(args[0], Address) && result.1 == dyn(args[1], uint32)
+
+// withdraw address as the message carries it: a hex string is first re-encoded as a "haqq" account string;
+// an argument that is not a string counts as the empty string (which ValidateBasic refuses)
+specfunc WithdrawStr(x int) string = ite(isdyn(x, string), dyn(x, string), "")
+specfunc WithdrawBech(s string) string = ite(is_hex_addr(s), bech32ify("haqq", addr_bytes(hex_addr(s))), s)
+
+func NewMsgSetWithdrawAddress
+    let ok = len(args) == 2 && isdyn(args[0], Address) && dyn(args[0], Address) != zero_EvmAddr
+    let w = WithdrawStr(args[1])
+    ensures err_iff: (result.2 == nil) == (ok && (is_hex_addr(w) ==> bech32ify_ok("haqq", addr_bytes(hex_addr(w)))) && acc_bech_ok(WithdrawBech(w)))
+    ensures msg: result.2 == nil ==> result.0 != nil && fresh(result.0)
+            && result.0.DelegatorAddress == bech_of(dyn(args[0], Address)) && result.0.WithdrawAddress == WithdrawBech(w)
+    ensures who: result.2 == nil ==> result.1 == dyn(args[0], Address) && result.1 != zero_EvmAddr
+    ensures wrong_type: len(args) == 2 && !isdyn(args[1], string) ==> result.2 != nil
+    ensures refused: result.2 != nil ==> result.0 == nil
+
+func NewMsgWithdrawDelegatorReward
+    let ok = len(args) == 2 && isdyn(args[0], Address) && dyn(args[0], Address) != zero_EvmAddr
+    let val = WithdrawStr(args[1])
+    ensures err_iff: (result.2 == nil) == (ok && val_bech_ok(val))
+    ensures msg: result.2 == nil ==> result.0 != nil && fresh(result.0)
+            && result.0.DelegatorAddress == bech_of(dyn(args[0], Address)) && result.0.ValidatorAddress == val
+    ensures who: result.2 == nil ==> result.1 == dyn(args[0], Address) && result.1 != zero_EvmAddr
+    ensures wrong_type: len(args) == 2 && !isdyn(args[1], string) ==> result.2 != nil
+    ensures refused: result.2 != nil ==> result.0 == nil
+
+func NewMsgWithdrawValidatorCommission
+    let val = WithdrawStr(args[0])
+    ensures err_iff: (result.2 == nil) == (len(args) == 1 && val_bech_ok(val))
+    ensures msg: result.2 == nil ==> result.0 != nil && fresh(result.0) && result.0.ValidatorAddress == val
+    // the account whose commission is withdrawn: the EVM address with the validator operator's bytes
+    ensures who: result.2 == nil ==> result.1 == bytes_addr(val_of_bech(val))
+    ensures wrong_type: len(args) == 1 && !isdyn(args[0], string) ==> result.2 != nil
+    // a string accepted by ValidateBasic always converts (the error return after HexAddressFromBech32String is dead code)
+    unreachable return: return nil, common.Address{}, err#2
+    ensures refused: result.2 != nil ==> result.0 == nil
+
+// ------------------------------------------------------------------ C04 + C16: the transactions
+// Preconditions are facts of the only call site (Precompile.Run), see precompiles/staking/zz_contracts_c04_verif.go.
+alias SDB github.com/haqq-network/haqq/x/evm/statedb.StateDB
+func (Precompile).Address
+    ensures true
+// event emission: writes an EVM log only (frame proved)
+func (Precompile).EmitClaimRewardsEvent
+    requires wf: ctx_height(ctx) >= 0 && p.stakingKeeper.Keeper != nil
+    // abi.json: event ClaimRewards(address indexed delegatorAddress, uint256 amount)
+    requires abi: len(p.ABI.Events["ClaimRewards"].Inputs) == 2
+    ensures true
+func (Precompile).EmitSetWithdrawAddressEvent
+    requires wf: ctx_height(ctx) >= 0
+    // abi.json: event SetWithdrawerAddress(address indexed caller, string withdrawerAddress)
+    requires abi: len(p.ABI.Events["SetWithdrawerAddress"].Inputs) == 2
+    ensures true
+func (Precompile).EmitWithdrawDelegatorRewardsEvent
+    requires wf: ctx_height(ctx) >= 0 && coins_len(coins) >= 1
+    ensures true
+func (Precompile).EmitWithdrawValidatorCommissionEvent
+    requires wf: ctx_height(ctx) >= 0 && coins_len(coins) >= 1
+    ensures true
+
+// C04: rewards are claimed only on the account's own call: every keeper call names the delegator, who is the signer or the
+// calling contract. (No native message corresponds to claimRewards; it calls the distribution keeper directly, once per validator.)
+func (Precompile).ClaimRewards
+    requires wf: contract != nil && method != nil && ctx_height(ctx) >= 0 && p.stakingKeeper.Keeper != nil && len(p.ABI.Events["ClaimRewards"].Inputs) == 2
+    let caller = old(contract.CallerAddress)
+    let del = dyn(args[0], Address)
+    let okargs = len(args) == 2 && isdyn(args[0], Address) && del != zero_EvmAddr && isdyn(args[1], uint32)
+    modifies cstate
+    call WithdrawDelegationRewards requires who: delAddr == addr_bytes(origin) || delAddr == addr_bytes(caller)
+    call WithdrawDelegationRewards requires named: delAddr == addr_bytes(del)
+    call Pack requires packs_true: len(args) == 1 && isdyn(args[0], bool) && dyn(args[0], bool)
+    ensures who: result.1 == nil ==> okargs && (del == origin || del == caller)
+    ensures refused: !okargs || (del != origin && del != caller) ==> result.1 != nil && cstate == old(cstate)
+    loop 1 invariant idx: 0 <= #i && #i <= len(validators)
+    loop 1 invariant frame: delegatorAddr == del && okargs && (del == origin || del == caller) && contract.CallerAddress == caller
+
+// C04: the withdraw address of an account is changed only by its own call: the named delegator is the signer or the calling
+// contract. C16: the call is the native MsgSetWithdrawAddress of that account.
+func (Precompile).SetWithdrawAddress
+    requires wf: contract != nil && method != nil && ctx_height(ctx) >= 0 && len(p.ABI.Events["SetWithdrawerAddress"].Inputs) == 2
+    let caller = old(contract.CallerAddress)
+    let del = dyn(args[0], Address)
+    let ws = WithdrawStr(args[1])
+    let w = WithdrawBech(ws)
+    let decoded = len(args) == 2 && isdyn(args[0], Address) && del != zero_EvmAddr && (is_hex_addr(ws) ==> bech32ify_ok("haqq", addr_bytes(hex_addr(ws)))) && acc_bech_ok(w)
+    modifies cstate
+    call MsgServer.SetWithdrawAddress requires who: msg.DelegatorAddress == bech_of(origin) || msg.DelegatorAddress == bech_of(caller)
+    call MsgServer.SetWithdrawAddress requires named: msg.DelegatorAddress == bech_of(del) && msg.WithdrawAddress == w && goCtx == ctx_wrap(ctx)
+    call MsgServer.SetWithdrawAddress requires untouched: cstate == old(cstate)
+    call Pack requires packs_true: len(args) == 1 && isdyn(args[0], bool) && dyn(args[0], bool)
+    ensures who: result.1 == nil ==> decoded && (del == origin || del == caller)
+    ensures refused: !decoded || (del != origin && del != caller) ==> result.1 != nil && cstate == old(cstate)
+    ensures native_fail: decoded && (del == origin || del == caller) && !setwithdraw_ok(old(cstate), ctx_wrap(ctx), bech_of(del), w) ==> result.1 != nil
+    ensures native_ok: result.1 == nil ==> setwithdraw_ok(old(cstate), ctx_wrap(ctx), bech_of(del), w)
+    ensures native_effect: result.1 == nil ==> cstate == setwithdraw_post(old(cstate), ctx_wrap(ctx), bech_of(del), w)
+
+// C04: pending rewards are paid out only on the account's own call. C16: the call is the native MsgWithdrawDelegatorReward.
+func (Precompile).WithdrawDelegatorRewards
+    requires wf: contract != nil && method != nil && ctx_height(ctx) >= 0 && isdyn(stateDB, *SDB) && dyn(stateDB, *SDB) != nil
+    let caller = old(contract.CallerAddress)
+    let del = dyn(args[0], Address)
+    let val = WithdrawStr(args[1])
+    let decoded = len(args) == 2 && isdyn(args[0], Address) && del != zero_EvmAddr && val_bech_ok(val)
+    let paid = wdreward_amount(old(cstate), ctx_wrap(ctx), bech_of(del), val)
+    modifies cstate, sdb_delta
+    call MsgServer.WithdrawDelegatorReward requires who: msg.DelegatorAddress == bech_of(origin) || msg.DelegatorAddress == bech_of(caller)
+    call MsgServer.WithdrawDelegatorReward requires named: msg.DelegatorAddress == bech_of(del) && msg.ValidatorAddress == val && goCtx == ctx_wrap(ctx)
+    call MsgServer.WithdrawDelegatorReward requires untouched: cstate == old(cstate) && sdb_delta == old(sdb_delta)
+    ensures who: result.1 == nil ==> decoded && (del == origin || del == caller)
+    ensures refused: !decoded || (del != origin && del != caller) ==> result.1 != nil && cstate == old(cstate) && sdb_delta == old(sdb_delta)
+    ensures native_fail: decoded && (del == origin || del == caller) && !wdreward_ok(old(cstate), ctx_wrap(ctx), bech_of(del), val) ==> result.1 != nil
+    ensures native_ok: result.1 == nil ==> wdreward_ok(old(cstate), ctx_wrap(ctx), bech_of(del), val)
+    ensures native_effect: result.1 == nil ==> cstate == wdreward_post(old(cstate), ctx_wrap(ctx), bech_of(del), val)
+    // the EVM balance mirror of the calling contract is credited only when it is the delegator, with the first coin of the reward
+    ensures mirror: result.1 == nil ==> sdb_delta == ite(caller == del, upd(old(sdb_delta), caller, old(sdb_delta)[caller] + coins_at(paid, 0).Amount), old(sdb_delta))
+    // C16 (balances mirror the bank module): the credited amount is the reward in the EVM (bond) denomination
+    ensures mirror_denom: result.1 == nil && caller == del ==> coins_at(paid, 0).Amount == paid[bond_denom(oldheap(*p.stakingKeeper.Keeper), ctx)]
+
+// C04: commission is paid out only on the validator's own call (signer or calling contract is the validator's account).
+// C16: the call is the native MsgWithdrawValidatorCommission.
+func (Precompile).WithdrawValidatorCommission
+    requires wf: contract != nil && method != nil && ctx_height(ctx) >= 0
+    let caller = old(contract.CallerAddress)
+    let val = WithdrawStr(args[0])
+    let who = bytes_addr(val_of_bech(val))
+    let decoded = len(args) == 1 && val_bech_ok(val)
+    modifies cstate
+    call MsgServer.WithdrawValidatorCommission requires who: bytes_addr(val_of_bech(msg.ValidatorAddress)) == origin || bytes_addr(val_of_bech(msg.ValidatorAddress)) == caller
+    call MsgServer.WithdrawValidatorCommission requires named: msg.ValidatorAddress == val && goCtx == ctx_wrap(ctx)
+    call MsgServer.WithdrawValidatorCommission requires untouched: cstate == old(cstate)
+    // FINDING G4: the native message may succeed with an empty coin list (commission below one base unit); the event code indexes coins[0]
+    call EmitWithdrawValidatorCommissionEvent requires nonempty: coins_len(coins) >= 1
+    ensures who: result.1 == nil ==> decoded && (who == origin || who == caller)
+    ensures refused: !decoded || (who != origin && who != caller) ==> result.1 != nil && cstate == old(cstate)
+    ensures native_fail: decoded && (who == origin || who == caller) && !wdcomm_ok(old(cstate), ctx_wrap(ctx), val) ==> result.1 != nil
+    ensures native_ok: result.1 == nil ==> wdcomm_ok(old(cstate), ctx_wrap(ctx), val)
+    ensures native_effect: result.1 == nil ==> cstate == wdcomm_post(old(cstate), ctx_wrap(ctx), val)
+@*/
